@@ -95,6 +95,10 @@ def zhit_cases(thorough):
         kw["weights"] = "np.ones(n)" if w else None
         out.append(case("perform_zhit", f"pyimpspec.perform_zhit(d, {src})", kw,
                         cost=(5 if smoothing == "auto" else 1) * (4 if interpolation == "auto" else 1) * (3 if window == "auto" and not w else 1)))
+    # the smoothing window relative to the length of the spectrum: windows longer than a short spectrum (the filters extend the data)
+    for smoothing, npts, adm in itertools.product(("modsinc", "savgol", "whithend", "lowess"), (5, 10), (False, True)):
+        kw = dict(smoothing=smoothing, interpolation="akima", num_points=npts, polynomial_order=2, admittance=adm, window="boxcar", num_procs=1)
+        out.append(case("perform_zhit", f"pyimpspec.perform_zhit(d, {kwsrc(kw)})", kw))
     return out
 
 
